@@ -288,6 +288,13 @@ class Lexer(object):
             # for the automatic semicolon insertion
             token.after_line_terminator = self.line_terminator_seen
             self.line_terminator_seen = False
+            if (token.after_line_terminator and
+                    token.type in ('PLUSPLUS', 'MINUSMINUS')):
+                # the postfix operators are restricted productions: with
+                # a line terminator in front this can only be a prefix
+                # operator (section 7.9.1), which the grammar is told
+                # about by using a different token type.
+                token.type = 'LT' + token.type
 
         # insert semicolon after the restricted productions if the next
         # token was separated from them by a line terminator
@@ -523,6 +530,7 @@ class Lexer(object):
         'LE', 'GE',                             # <= and >=
         'OR', 'AND',                            # || and &&
         'PLUSPLUS', 'MINUSMINUS',               # ++ and --
+        'LTPLUSPLUS', 'LTMINUSMINUS',           # same, after line terminator
         'LSHIFT',                               # <<
         'RSHIFT', 'URSHIFT',                    # >> and >>>
         'PLUSEQUAL', 'MINUSEQUAL',              # += and -=
